@@ -456,6 +456,8 @@ func C15(c *hx.Ctx) {
 	// stale temporary files and an unwritable standard output
 	gxzStaleTemp(c, bin)
 	gxzFullStdout(c, bin)
+	// plain regular files of every content class and preset are compressed to valid files and restored
+	gxzContentFamily(c, bin, "C15")
 	gxzOperandEdgeCases(c, bin)
 	// preset round trips and xz-utils interoperability
 	plain := MakeData("alternating", 60000, c.Seed)
